@@ -335,7 +335,10 @@ pub fn genblock(b: &SparseMatOpt) -> Block {
     // Input matrix B.
     // Generate block Y such that Gram(B A Y) has full rank
     // This is to avoid null rows in the Gram matrix of AY
+    #[cfg(not(yamaquasi_verif))]
     let mut rng = rand::thread_rng();
+    #[cfg(yamaquasi_verif)]
+    let mut rng = crate::verif::lanczos_rng();
     let mut y = Block::new(b.ny);
     loop {
         y.try_fill(&mut rng).unwrap();
